@@ -40,7 +40,7 @@ for seed in sorted(rows):
             suite_passes_with_change=bool(r.get("suite_passes_with_change")), demo_fails_with_change=bool(r.get("demo_fails_with_change")),
             demo_passes_without=bool(r.get("demo_passes_without"))),
         check=dict(cmd="VERIF_REPO=<patched copy> ./check %s quick" % prop_id, exit_code=c.get("rc"), verdict=verdict,
-                   failing_obligations=c.get("obligations", []), undecided_reason=[u[:300] for u in c.get("undecided", [])]))
+                   failing_obligations=c.get("obligations", []), failing_input_found_for=c.get("witnessed", []), undecided_reason=[u[:300] for u in c.get("undecided", [])]))
     json.dump(meta, open(os.path.join(dst, "meta.json"), "w"), indent=1)
     what = notes.strip().split("\n")
     title = next((w.strip("# ").strip() for w in what if w.strip()), "")[:110]
